@@ -347,7 +347,7 @@ struct Ctl {
 impl Ctl {
     /// Wait until no participating thread is running.
     fn settle(&self) -> bool {
-        let deadline = Instant::now() + Duration::from_secs(20);
+        let deadline = Instant::now() + Duration::from_secs(5);
         let mut g = self.core.m.lock().unwrap();
         loop {
             if g.th.iter().all(|t| !matches!(t.st, TSt::Running | TSt::NotStarted)) {
